@@ -730,13 +730,13 @@ C01_UpdateUnique == Up => \A id \in Ids : UpdateOnly(id) =>
                         Cardinality({d \in Vis(root.ents) : d[1] = id}) <= 1
 
 \* C02: acknowledged => durable, at every instant (Crash is enabled everywhere)
-DurableLen == IF LoadableSet = {} THEN 0 ELSE epochLen[Max(LoadableSet)]
+DurableLen == IF LoadableSet = {} \/ Max(LoadableSet) \notin DOMAIN epochLen THEN 0 ELSE epochLen[Max(LoadableSet)]
 Durable(u) == \E i \in 1..Len(applied) : applied[i] = u /\ i <= DurableLen
 C02_AckedDurable == \A u \in acked \cup cbAcked : Durable(u)
 
 \* C03: what is on disk is the abstract index after a prefix
 C03_DiskIsPrefix == LoadableSet # {} =>
-      LET e == Max(LoadableSet) IN Vis(DiskEnts(e)) = AbsPrefix(epochLen[e])
+      LET e == Max(LoadableSet) IN e \in DOMAIN epochLen /\ Vis(DiskEnts(e)) = AbsPrefix(epochLen[e])
 C03_Recoverable == cnt.snapsDone > 0 => LoadableSet # {}
 C03_EveryLoadableIsPrefix == \A e \in LoadableSet : e \in DOMAIN epochLen =>
       \E k \in 0..Len(applied) : Vis(DiskEnts(e)) = AbsPrefix(k)
